@@ -300,7 +300,7 @@ environment's command oracle is `exec()`, see `C13_status`; in `Model.processMes
 DESIGN 9.4.) -/
 theorem C04_command_failure_is_error (env : Env) (root : Msg) (lno : Nat) (argv av : List Bytes) (part : Nat) (m : Msg) (st : St)
     (hav : argv.mapM (interpolate st.ml none) = some av)
-    (d : Bool) (f w : Res) (hrc : env.command av = Proofs.execValue d f w)
+    (d : Bool) (f w : Res) (hrc : env.command av = Model.execValue d f w)
     (h : Proofs.childOutcome d f w = .cannotRun ∨ Proofs.childOutcome d f w = .waited (.exited 127)) :
     eval env root (.command lno argv) part m st = (.error, st) := by
   rw [Proofs.eval_command, hav]
